@@ -133,9 +133,10 @@ def correspond(ctx):
                 ctx.corr["disagreements"] += 1
                 what = ("exception class differs: library %s, model kind %d" % (c["exc"] or "accepts", code - 100)) \
                     if code >= 100 else DIFF_NAMES.get(code, str(code))
-                ctx.problem("correspondence", "Grid(...) and the model disagree on %s (%s): %s" % (
-                    c["tag"], what, {"elements": c["els"], "nv": c["nv"]}))
                 ctx.disagree = getattr(ctx, "disagree", []) + [c]
+                if len(ctx.disagree) <= 6:
+                    ctx.problem("correspondence", "Grid(...) and the model disagree on %s (%s): %s" % (
+                        c["tag"], what, {"elements": c["els"], "nv": c["nv"]}))
         else:
             nl = U.parse_nat_list(out)
             names = {"adjacent": ["elements_adjacent"], "geom": ["geometric quantities"],
@@ -153,6 +154,8 @@ def correspond(ctx):
                 for i in idx:
                     ctx.corr["disagreements"] += 1
                     ctx.problem("correspondence", "library and model disagree on %s, case %d" % (nm, i))
+    if len(getattr(ctx, "disagree", [])) > 6:
+        ctx.problem("correspondence", "... and %d more topology cases disagree" % (len(ctx.disagree) - 6))
     if res.get("lists") != "AttributeError":
         ctx.problem("correspondence", "Grid(list, list) expected to raise AttributeError, got %s" % res.get("lists"))
         ctx.corr["disagreements"] += 1
